@@ -10,7 +10,7 @@ from vlib import Pool, run_tlc, log
 EV_VM = 4
 EV_OPS = 32
 KEEP = ("e", "fib", "ufib", "nf", "nh", "sl", "hx", "cd", "h", "fc", "path", "ok", "wcd")
-KEEP_OPS = KEEP + ("c", "pc", "sb", "code", "ckind", "cupv", "arity", "name")
+KEEP_OPS = KEEP + ("c", "pc", "sb", "code", "ckind", "cupv", "arity", "upv", "name")
 
 
 def write_trace(path, cases, replies, keep=KEEP):
